@@ -225,6 +225,8 @@ def toz(x):
         return x.z
     if isinstance(x, SymBool):
         return z3.If(x.z, z3.RealVal(1), z3.RealVal(0))
+    if isinstance(x, float) and hasattr(x, 'dec_angle') and type(x) is not float:
+        return toz(x.dec_angle)          # DECAngle (a float subclass whose value lives in .dec_angle)
     if isinstance(x, (bool, int, float, Fraction)):
         return ratval(exact_fraction(x))
     raise TypeError(type(x))
